@@ -155,6 +155,37 @@ def check_batch(o):
             order = whole[:1] + [i for i in range(len(data)) if i not in whole[:1]]
             forms.append(("a list of per-sample arrays of mixed number types",
                           [data[i].astype(np.int64) if i in whole else data[i].copy() for i in order], 1e-9))
+            # the same list with the first sample moved to the origin and everything halved (first sample whole - all zeros -, later
+            # ones not, whenever two samples differ by an odd amount): mean and precision follow exactly, (mean - x0) / 2 and 4 Q
+            half = (data - data[0]) * 0.5
+            if not np.array_equal(half, np.round(half)):
+                lst = [half[i].astype(np.int64) if np.array_equal(half[i], np.round(half[i])) else half[i].copy() for i in range(len(half))]
+                try:
+                    mh = GMRFVectorModel(lst, g, mode=c["mode"], sparse=sparse, bias=c["bias"])
+                    Qh = _dense(mh.precision).astype(float)
+                    Qx4 = 4.0 * L.mat(o["stats"]["Q"])
+                    mean_h = (np.array([L.fl(x) for x in o["stats"]["mean"]]) - data[0]) * 0.5
+                    if Qh.shape != Qx4.shape or not np.allclose(Qh, Qx4, rtol=0, atol=1e-9 * max(1.0, np.abs(Qx4).max())) \
+                            or not np.allclose(mh.mean(), mean_h, atol=1e-9):
+                        bad.append(("%s graph, %s storage: a model trained on a LIST of samples whose first member is an integer array and whose "
+                                    "later members are not whole differs from the model of the same numbers as one float matrix" %
+                                    (gname, "sparse" if sparse else "dense"), {"edges": c["E"], "mode": c["mode"], "bias": c["bias"]}, None))
+                    # ... and one query, two spellings: a Python list that starts with an int literal, an ndarray
+                    qq = np.array(o["queries"][0], dtype=float)
+                    qq[0] = np.round(qq[0])
+                    qq[1:] += 0.25
+                    d_l = float(np.asarray(mh.mahalanobis_distance([int(qq[0])] + [float(v) for v in qq[1:]])))
+                    d_a = float(np.asarray(mh.mahalanobis_distance(qq.copy())))
+                    if not np.isclose(d_l, d_a, rtol=1e-9, atol=1e-12):
+                        bad.append(("%s graph, %s storage: the Mahalanobis distance of a query written as a Python list (first coordinate an int "
+                                    "literal) differs from the same query as an ndarray" % (gname, "sparse" if sparse else "dense"),
+                                    {"got": d_l, "want": d_a}, None))
+                except Exception as e:
+                    from ..core import from_library
+
+                    if not from_library(e):
+                        raise
+                    bad.append(("%s graph: a model trained on a list of mixed integer / float samples raised %s" % (gname, type(e).__name__), {"msg": str(e)[:100]}, None))
             for fname, arr2, tol in forms:
                 tag = "%s graph, %s storage, data stored as %s" % (gname, "sparse" if sparse else "dense", fname)
                 try:
